@@ -1,85 +1,72 @@
-(* C19 -- the structure of the copy phase and of validate() that the hand model was written against.
-   Gen/SettingsTables.v carries the same lists re-read from the ast of /repo on every run; the theorem
-   model_skeleton_matches_source (Props/C19.v) fails as soon as a field is added/dropped/copied instead
-   of aliased, a call is reordered, a new in-place list mutation appears, or a re-binding of an attribute
-   of `other` to a new object appears/disappears (e.g. the copy made by _sanity_check_implementations
-   since /repo 851aa29). *)
+(* C19 -- the structure of validate() that the hand model was written against, as facts read from the
+   FLATTENED and NORMALISED closure of validate() (translator/c19_astnorm.py: helper methods inlined, aliases and
+   single-use locals removed, negations pushed inwards, literal loops unrolled, messages dropped), so that
+   behaviour-preserving rewrites (extracting or merging helpers, renaming locals, De Morgan, reworded texts) leave
+   them unchanged.  Gen/SettingsTables.v carries the same lists re-read from /repo on every run; the theorem
+   model_skeleton_matches_source (Props/C19.v) fails as soon as a field is added/dropped/copied instead of aliased
+   in the copy phase, a new in-place list mutation appears or disappears, or a re-binding of an attribute of `other`
+   to a new object appears/disappears (e.g. the copy made by _sanity_check_implementations since /repo 851aa29). *)
 From Coq Require Import List String.
 From TV Require Import Gen.SettingsTables.
 Import ListNotations.
 Open Scope string_scope.
 
-Definition expected_copies : list (string * string * string) := [
-  ("_copy_cipher_settings", "alias", "cipherNames");
-  ("_copy_cipher_settings", "alias", "macNames");
-  ("_copy_cipher_settings", "alias", "keyExchangeNames");
-  ("_copy_cipher_settings", "alias", "cipherImplementations");
-  ("_copy_cipher_settings", "alias", "minVersion");
-  ("_copy_cipher_settings", "alias", "maxVersion");
-  ("_copy_cipher_settings", "alias", "versions");
-  ("_copy_extension_settings", "alias", "useExtendedMasterSecret");
-  ("_copy_extension_settings", "alias", "requireExtendedMasterSecret");
-  ("_copy_extension_settings", "alias", "useExperimentalTackExtension");
-  ("_copy_extension_settings", "alias", "sendFallbackSCSV");
-  ("_copy_extension_settings", "alias", "useEncryptThenMAC");
-  ("_copy_extension_settings", "alias", "usePaddingExtension");
-  ("_copy_extension_settings", "alias", "ec_point_formats");
-  ("_copy_extension_settings", "alias", "padding_cb");
-  ("_copy_extension_settings", "alias", "ticketKeys");
-  ("_copy_extension_settings", "alias", "ticketCipher");
-  ("_copy_extension_settings", "alias", "ticketLifetime");
-  ("_copy_extension_settings", "alias", "max_early_data");
-  ("_copy_extension_settings", "alias", "ticket_count");
-  ("_copy_extension_settings", "alias", "record_size_limit");
-  ("_copy_extension_settings", "alias", "certificate_compression_send");
-  ("_copy_extension_settings", "alias", "certificate_compression_receive");
-  ("_copy_extension_settings", "alias", "dc_sig_algs");
-  ("_copy_extension_settings", "alias", "dc_valid_time");
-  ("_copy_key_settings", "alias", "minKeySize");
-  ("_copy_key_settings", "alias", "maxKeySize");
-  ("_copy_key_settings", "alias", "certificateTypes");
-  ("_copy_key_settings", "alias", "rsaSigHashes");
-  ("_copy_key_settings", "alias", "rsaSchemes");
-  ("_copy_key_settings", "alias", "dsaSigHashes");
-  ("_copy_key_settings", "alias", "ecdsaSigHashes");
-  ("_copy_key_settings", "alias", "more_sig_schemes");
-  ("_copy_key_settings", "alias", "virtual_hosts");
-  ("_copy_key_settings", "alias", "eccCurves");
-  ("_copy_key_settings", "alias", "dhParams");
-  ("_copy_key_settings", "alias", "dhGroups");
-  ("_copy_key_settings", "alias", "defaultCurve");
-  ("_copy_key_settings", "alias", "keyShares");
-  ("_copy_key_settings", "alias", "use_heartbeat_extension");
-  ("_copy_key_settings", "alias", "heartbeat_response_callback")].
-Definition expected_validate_seq : list string := [
-  "new:other";
-  "call:_copy_cipher_settings";
-  "call:_copy_extension_settings";
-  "call:_copy_key_settings";
-  "alias:pskConfigs";
-  "alias:psk_modes";
-  "if(not other.certificateTypes){raise}";
-  "call:_sanityCheckKeySizes";
-  "call:_sanityCheckPrimitivesNames";
-  "call:_sanityCheckProtocolVersions";
-  "call:_sanityCheckExtensions";
-  "if(other.maxVersion < (3, 3)){set:macNames:ListComp}";
-  "call:_sanityCheckPsks";
-  "call:_sanityCheckTicketSettings";
-  "call:_sanity_check_implementations";
-  "call:_sanity_check_ciphers";
-  "return:other"].
-Definition expected_mutation_sites : list (string * string) := [
-  ("_remove_all_matches", "setitem:values[:]")].
-Definition expected_rebinds : list (string * string) := [
-  ("_sanityCheckProtocolVersions", "versions:ListComp");
-  ("_sanity_check_ciphers", "cipherNames:Subscript");
-  ("_sanity_check_implementations", "cipherImplementations:Subscript");
-  ("validate", "macNames:ListComp")].
+Definition expected_copies : list (string * string) := [
+  ("alias", "cipherNames");
+  ("alias", "macNames");
+  ("alias", "keyExchangeNames");
+  ("alias", "cipherImplementations");
+  ("alias", "minVersion");
+  ("alias", "maxVersion");
+  ("alias", "versions");
+  ("alias", "useExtendedMasterSecret");
+  ("alias", "requireExtendedMasterSecret");
+  ("alias", "useExperimentalTackExtension");
+  ("alias", "sendFallbackSCSV");
+  ("alias", "useEncryptThenMAC");
+  ("alias", "usePaddingExtension");
+  ("alias", "ec_point_formats");
+  ("alias", "padding_cb");
+  ("alias", "ticketKeys");
+  ("alias", "ticketCipher");
+  ("alias", "ticketLifetime");
+  ("alias", "max_early_data");
+  ("alias", "ticket_count");
+  ("alias", "record_size_limit");
+  ("alias", "certificate_compression_send");
+  ("alias", "certificate_compression_receive");
+  ("alias", "dc_sig_algs");
+  ("alias", "dc_valid_time");
+  ("alias", "minKeySize");
+  ("alias", "maxKeySize");
+  ("alias", "certificateTypes");
+  ("alias", "rsaSigHashes");
+  ("alias", "rsaSchemes");
+  ("alias", "dsaSigHashes");
+  ("alias", "ecdsaSigHashes");
+  ("alias", "more_sig_schemes");
+  ("alias", "virtual_hosts");
+  ("alias", "eccCurves");
+  ("alias", "dhParams");
+  ("alias", "dhGroups");
+  ("alias", "defaultCurve");
+  ("alias", "keyShares");
+  ("alias", "use_heartbeat_extension");
+  ("alias", "heartbeat_response_callback");
+  ("alias", "pskConfigs");
+  ("alias", "psk_modes")].
+Definition expected_mutation_sites : list string := [
+  "setitem:other.cipherImplementations[:]";
+  "setitem:other.cipherImplementations[:]";
+  "setitem:other.cipherNames[:]"].
+Definition expected_rebinds : list string := [
+  "versions:ListComp";
+  "macNames:ListComp";
+  "cipherImplementations:Subscript";
+  "cipherNames:Subscript"].
 Definition expected_init_attrs : list string := ["minKeySize"; "maxKeySize"; "rsaSigHashes"; "rsaSchemes"; "dsaSigHashes"; "virtual_hosts"; "eccCurves"; "dhParams"; "dhGroups"; "defaultCurve"; "keyShares"; "padding_cb"; "use_heartbeat_extension"; "heartbeat_response_callback"; "certificateTypes"; "useExperimentalTackExtension"; "sendFallbackSCSV"; "useEncryptThenMAC"; "ecdsaSigHashes"; "more_sig_schemes"; "usePaddingExtension"; "useExtendedMasterSecret"; "requireExtendedMasterSecret"; "pskConfigs"; "psk_modes"; "ticketKeys"; "ticketCipher"; "ticketLifetime"; "max_early_data"; "ticket_count"; "record_size_limit"; "ec_point_formats"; "certificate_compression_send"; "certificate_compression_receive"; "dc_sig_algs"; "dc_valid_time"; "minVersion"; "maxVersion"; "versions"; "cipherNames"; "macNames"; "keyExchangeNames"; "cipherImplementations"].
 
 Lemma skeleton_ok :
-  gen_copies = expected_copies /\ gen_validate_seq = expected_validate_seq /\
-  gen_mutation_sites = expected_mutation_sites /\ gen_rebinds = expected_rebinds /\
-  gen_init_attrs = expected_init_attrs.
+  gen_copies = expected_copies /\ gen_mutation_sites = expected_mutation_sites /\
+  gen_rebinds = expected_rebinds /\ gen_init_attrs = expected_init_attrs.
 Proof. repeat split; reflexivity. Qed.
